@@ -5,7 +5,7 @@
 (* the projected post-state (index contents, persisted-hash contents, queue lengths, round state,       *)
 (* stores, jobs). Used with -simulate: one JSON file per behaviour, written when the single Done step   *)
 (* is taken after GenDepth steps.                                                                       *)
-EXTENDS HeadSyncMC, VerifEmit
+EXTENDS HeadSyncConsts, VerifEmit
 
 CONSTANTS GenDepth
 VARIABLES hist, done
